@@ -366,6 +366,15 @@ class EngineBase:
         """Record a path end for the reachability (anti-vacuity) check."""
         self.terminals.append((self.cur_target, list(p.pc), set(p.stmts), what))
 
+    def add_static(self, name, ok, detail="", backend="effect-analysis", functions=None):
+        """An obligation decided outside the SMT layer (effect / frame / coverage contracts decided by the analysis itself)."""
+        ob = Obligation(f"{self.prop}/{name}", [], z3.BoolVal(bool(ok)), "static", name)
+        ob.status, ob.backend = ("proved" if ok else "refuted"), backend
+        ob.why = detail
+        ob.model = detail if not ok else None
+        self.obligations.append(ob)
+        return ob
+
     def oblige(self, p: Path, goal, kind, where="", extra=None):
         # split top-level conjunctions: one small query per conjunct (slow merged queries are the unstable ones)
         if z3.is_and(goal) and goal.num_args() > 1 and kind not in ("vacuity",):
